@@ -33,6 +33,7 @@ CONSTANTS ColTypes,     \* column types explored in this run (subset of AllColTy
 (* ------------------------------------------------------------------ storage constants of the implementation *)
 ToastThreshold == 1000      \* storage/toast.rs TOAST_THRESHOLD: a text/blob of MORE than this many bytes is moved out of line
 ChunkSize      == 4000      \* storage/toast.rs TOAST_CHUNK_SIZE
+Pages          == 100000    \* 25 chunks: the chunks of one value fill several 16 KiB leaf pages of the TOAST tree
 Huge           == 3145728   \* 3 MiB: "multi-megabyte", 787 chunks
 
 (* ------------------------------------------------------------------ calendar (day number of a civil date) *)
@@ -68,15 +69,15 @@ Floats == {"f_zero", "f_negzero", "f_one_half", "f_neg_one_half", "f_five", "f_t
            "f_min_sub", "f_min_norm", "f_max", "f_neg_max", "f_1e22", "f_2p53_p2"}
 Decimals == {"f_zero", "f_one_half", "f_five", "f_tenth", "f_money", "f_dec19"}     \* f_dec19: 19 significant digits, exact in DECIMAL(38,10)
 \* sizes in BYTES; the same size points exist for text, for blobs that are valid UTF-8 and for blobs that are not
-SizePoints == {"thr_m1", "thr", "thr_p1", "chunk_m1", "chunk", "chunk_p1", "chunk2", "chunk2_p1", "huge"}
+SizePoints == {"thr_m1", "thr", "thr_p1", "chunk_m1", "chunk", "chunk_p1", "chunk2", "chunk2_p1", "pages", "huge"}
 SizeOf(p) == CASE p = "thr_m1" -> ToastThreshold - 1 [] p = "thr" -> ToastThreshold [] p = "thr_p1" -> ToastThreshold + 1
                [] p = "chunk_m1" -> ChunkSize - 1 [] p = "chunk" -> ChunkSize [] p = "chunk_p1" -> ChunkSize + 1
-               [] p = "chunk2" -> 2 * ChunkSize [] p = "chunk2_p1" -> 2 * ChunkSize + 1 [] p = "huge" -> Huge
+               [] p = "chunk2" -> 2 * ChunkSize [] p = "chunk2_p1" -> 2 * ChunkSize + 1 [] p = "pages" -> Pages [] p = "huge" -> Huge
 Texts == {"t_empty", "t_1b", "t_quote", "t_backslash", "t_nul", "t_4byte", "t_unicode", "t_sqlish", "t_numeric", "t_newline"}
          \cup {"t_" \o p : p \in SizePoints} \cup {"t_mb_chunk"}     \* t_mb_chunk: a 4-byte character straddles the chunk boundary
-Varchars == {"t_empty", "t_1b", "t_quote", "t_4byte", "vc_max_ascii", "vc_max_4byte"}    \* VARCHAR(10): 10 characters, 10 and 40 bytes
+Varchars == {"t_empty", "t_1b", "vc_quote", "t_4byte", "vc_max_ascii", "vc_max_4byte"}    \* VARCHAR(10): 10 characters, 10 and 40 bytes
 Chars == {"t_1b", "ch_full", "ch_full_4byte"}                                           \* CHAR(5)
-Blobs == {"b_empty", "b_zero", "b_ff", "b_bin", "b_utf8", "b_fe17", "b_fe17_tail", "b_fe16", "b_fe18"}
+Blobs == {"b_empty", "b_zero", "b_ff", "b_bin", "b_utf8", "b_fe17", "b_fe16", "b_fe18"}
          \cup {"bu_" \o p : p \in SizePoints}     \* valid UTF-8 of that size
          \cup {"bb_" \o p : p \in SizePoints}     \* invalid UTF-8 of that size
 Bools == {"true", "false"}
@@ -110,6 +111,11 @@ Val(ct, c) == [tag |-> Tag(ct), cls |-> c]
 IsLarge(c) == \E p \in SizePoints \ {"thr_m1", "thr"} : c \in {"t_" \o p, "bu_" \o p, "bb_" \o p}   \* stored out of line
 IsHuge(c) == c \in {"t_huge", "bu_huge", "bb_huge"}
 
+(* Every point above is a value of its column type, so a write of it must be accepted - with one documented exception:
+   a JSONB document larger than a page. JSONB is not moved out of line (only TEXT / BLOB are), so the engine may refuse
+   the write; it must then leave the table unchanged. *)
+MayReject(x, c) == x = "JSONB" /\ c \in {"j_20k", "j_str_64k"}
+
 (* per-type equality: identity of points, type tag included *)
 Eq(x, y) == x.tag = y.tag /\ x.cls = y.cls
 
@@ -134,13 +140,16 @@ AllShapes == {"solo", "nokey", "first", "firstn", "last", "lastn"}
 HasNbr(s) == s \in {"first", "firstn", "last", "lastn"}
 NbrA(s) == IF s \in {"first", "last"} THEN [tag |-> "text", cls |-> "n_left"] ELSE Null
 NbrB(s) == IF s \in {"first", "last"} THEN [tag |-> "int", cls |-> "n_minus7"] ELSE Null
-\* the witness row (id 2) holds another value of the same type and must never change
+\* the witness row (id 2) holds another value of the same type and must never change. It is inserted before row 1 in
+\* most shapes and after it in two (the insertion order decides the internal row ids and the position of the row's
+\* out-of-line chunks in the TOAST tree; the logical content is the same).
+WitnessFirst(s) == s \notin {"solo", "lastn"}
 Witness(ct) == CASE Tag(ct) = "int" -> "i_one" [] ct \in {"DOUBLE", "REAL"} -> "f_neg_one_half" [] ct = "DECIMAL" -> "f_money"
                  [] Tag(ct) = "text" -> "t_1b" [] ct = "BLOB" -> "b_bin" [] ct = "BOOLEAN" -> "true" [] ct = "DATE" -> "d_leap"
                  [] ct = "TIME" -> "tm_millis" [] ct = "TIMESTAMP" -> "ts_leap" [] ct = "UUID" -> "u_v4" [] ct = "JSONB" -> "j_obj"
                  [] Tag(ct) = "vec" -> "v_ramp"
 \* values a cell holds before an UPDATE overwrites it: NULL, a small one, and (text/blob) one that is stored out of line
-Priors(ct) == {"null", Witness(ct)} \cup (IF ct = "TEXT" THEN {"t_chunk2_p1"} ELSE IF ct = "BLOB" THEN {"bu_chunk2_p1"} ELSE {})
+Priors(ct) == {"null", Witness(ct)} \cup (IF ct = "TEXT" THEN {"t_chunk2_p1", "t_pages"} ELSE IF ct = "BLOB" THEN {"bb_chunk2_p1", "bb_pages"} ELSE {})
 
 (* ------------------------------------------------------------------ the register store *)
 VARIABLES ct, shape,
@@ -157,7 +166,10 @@ Init == /\ ct \in ColTypes /\ shape \in Shapes
         /\ store = [r1 |-> Absent, r2 |-> RowOf(Val(ct, Witness(ct)), shape), copies |-> 0]
         /\ sess = 1 /\ phase = "empty" /\ hist = <<>>
 
-Step(k, c, form, path) == [k |-> k, cls |-> c, form |-> form, path |-> path]
+\* pre: the point the cell under test holds before the step ("absent": no row yet). A write the engine REJECTS is a
+\* stuttering step: the table must still read as before (pre), see MayReject.
+Step(k, c, form, path) == [k |-> k, cls |-> c, form |-> form, path |-> path,
+                           pre |-> IF store.r1 = Absent THEN "absent" ELSE store.r1.v.cls]
 ValOrNull(c) == IF c = "null" THEN Null ELSE Val(ct, c)
 
 \* INSERT INTO t VALUES (1, ..v.., neighbours)
@@ -206,9 +218,9 @@ Spec == Init /\ [][Next]_vars
 RECURSIVE LastWrite(_, _, _)
 LastWrite(h, kinds, dflt) == IF h = <<>> THEN dflt
                              ELSE IF h[Len(h)].k \in kinds THEN h[Len(h)] ELSE LastWrite(SubSeq(h, 1, Len(h) - 1), kinds, dflt)
-ExpectedV == LET w == LastWrite(hist, {"insert", "update"}, Step("none", "absent", "native", "-"))
+ExpectedV == LET w == LastWrite(hist, {"insert", "update"}, [k |-> "none"])
              IN IF w.k = "none" THEN Absent ELSE ValOrNull(w.cls)
-ExpectedB == LET w == LastWrite(hist, {"touch"}, Step("none", "-", "native", "-"))
+ExpectedB == LET w == LastWrite(hist, {"touch"}, [k |-> "none"])
              IN IF w.k = "none" THEN NbrB(shape) ELSE [tag |-> "int", cls |-> "n_42"]
 
 \* C11: a read returns what was written last, with its type, in every reachable state (hence also after Reopen)
